@@ -1,5 +1,6 @@
 import TantivyModel.Proofs.TopNHeap
 import TantivyModel.Proofs.Wand
+import TantivyModel.Proofs.PruneEarly
 import TantivyModel.Proofs.Bm25Q
 /-!
 # C06 — Top-K collection returns exactly the best K, with deterministic ties
@@ -65,6 +66,34 @@ theorem C06_pruning_sound (gt : α → α → Bool) (hgt : StrictWeak gt) (K : N
   rw [prunedRun_eq_forEach gt cs _ hskip,
     forEachPruning_eq_pushAll gt _ _ ⟨heapWf_new K, rfl⟩]
   exact C06_heap_topk gt hgt K _ hasc
+
+/-- Pruning with EARLY justifications is sound too (this is the shape of WAND's skips: a document
+is passed over while smaller documents are still to be scored, on the strength of a bound that was
+not above the threshold *then*): because `TopNHeap`'s threshold never decreases, a driver whose
+every skipped document was not above the current threshold or one in force earlier in the same
+run still leaves exactly the best K of the live documents in the heap. -/
+theorem C06_pruning_sound_early (gt : α → α → Bool) (hgt : StrictWeak gt) (K : Nat)
+    (cs : List (Cand α × Bool)) (hasc : AddrAsc (cs.map (·.1.entry)))
+    (hskip : skipsBelowEarly gt (Heap.new K, none) [] cs = true) :
+    (prunedRun gt (Heap.new K, none) cs).1.heap
+      = topK (le gt) K 0 (((cs.map (·.1)).filter (·.alive)).map (·.entry)) := by
+  have hs : skipsBelow gt (Heap.new K, none) cs = true :=
+    skipsBelow_of_early hgt cs [] (Heap.new K, none) []
+      ⟨hinv_new gt K, heapWf_new K, rfl, by simp⟩ (by simpa using hasc) hskip
+  refine C06_pruning_sound gt hgt K cs ?_ hs
+  refine Pairwise.sublist ?_ hasc
+  have : (cs.map (·.1.entry)) = ((cs.map (·.1)).map (·.entry)) := by simp
+  rw [this]
+  exact Sublist.map _ (filter_sublist)
+
+/-- the collector's threshold never decreases (what makes early justifications valid) -/
+theorem C06_threshold_monotone (gt : α → α → Bool) (hgt : StrictWeak gt) (K : Nat)
+    (xs : List (Entry α)) (hasc : AddrAsc xs) (e : Entry α) :
+    thrLe gt (xs.foldl (heapPush gt) (Heap.new K)).threshold
+      (heapPush gt (xs.foldl (heapPush gt) (Heap.new K)) e).threshold := by
+  have h := hinv_pushAll hgt xs [] (Heap.new K) (hinv_new gt K) (by simpa using hasc)
+  simp only [nil_append] at h
+  exact heapPush_thr_mono hgt h
 
 /-- the exhaustive driver is the special case "nothing skipped" -/
 theorem C06_exhaustive_is_pruned (gt : α → α → Bool) (st : Heap α × Option α) (cs : List (Cand α)) :
@@ -191,13 +220,31 @@ theorem C06_wand_pivot_sound (θ : Nat) (ts : List Wand.TermList) (hs : Wand.Sor
   have h := Wand.findPivot_sound θ ts 0 (Nat.zero_le _) hs hub
   simpa using h
 
+/-- the block-max refinement of `block_wand`: when the bounds of the blocks under the scorers at
+or before the pivot add up to at most the threshold, no document inside all those blocks and
+before every other scorer's current document beats the threshold — the range that
+`block_max_was_too_low_advance_one_scorer` passes over — PROVIDED each block bound holds
+(`UB_block`). Together with `C06_wand_pivot_sound` these are the two justifications of every
+skip `block_wand` makes; `C06_pruning_sound_early` turns justified skips into exactness. -/
+theorem C06_wand_block_sound (θ : Nat) (pre : List Wand.BlockView) (suffix : List Wand.TermList)
+    (doc : Nat)
+    (hub : ∀ b, b ∈ pre → ∀ p, p ∈ b.t.postings → p.1 ≤ b.lastDoc → p.2 ≤ b.blockMax)
+    (hin : ∀ b, b ∈ pre → doc ≤ b.lastDoc)
+    (hsuf : ∀ t, t ∈ suffix → ∀ p, p ∈ t.postings → doc < p.1)
+    (hsum : (pre.map (·.blockMax)).sum ≤ θ) :
+    Wand.totalScore (pre.map (·.t) ++ suffix) doc ≤ θ :=
+  Wand.blockRule_sound θ pre suffix doc hub hin hsuf hsum
+
 /-
 NOT YET PROVED (stated): `C06_wand_union_skipsBelow`, `C06_wand_intersection_skipsBelow` — the
 complete `block_wand` loop (block-max refinement of the pivot, `block_max_was_too_low_advance_one_scorer`,
 `align_scorers`, `advance_all_scorers_on_pivot`) and `block_wand_intersection` (leader windows,
-per-candidate suffix bounds) equal the exhaustive loop given `UB_max` and `UB_block`. Only the
-pivot rule above and the single-scorer driver are modelled; the multi-scorer drivers are tied to
-the property by the end-to-end comparison alone.
+per-candidate suffix bounds) equal the exhaustive loop given `UB_max` and `UB_block`. Proved so far: the
+single-scorer driver completely; for the union driver the two skip justifications (pivot rule,
+block rule) and the theorem that justified skips — even early ones — give the exhaustive result.
+Missing: the loop model showing that `block_wand` skips ONLY by these two rules and scores the
+pivot with all matching scorers aligned; `block_wand_intersection` is not modelled. Both are tied
+to the property by the end-to-end and callback-level comparisons.
 -/
 
 /-! ## the score bounds (exact arithmetic) and the refuted hypothesis `UB_max` -/
@@ -328,6 +375,9 @@ example : (exDocs.foldl (heapPush gtNat) (Heap.new 3)).heap = [⟨9, 3⟩, ⟨7,
 example : skipsBelow gtNat (Heap.new 1, none)
     [(⟨⟨5, 0⟩, true⟩, false), (⟨⟨7, 1⟩, true⟩, false), (⟨⟨5, 2⟩, true⟩, true), (⟨⟨9, 3⟩, false⟩, false),
      (⟨⟨1, 6⟩, true⟩, true)] = true := by decide
+example : skipsBelowEarly gtNat (Heap.new 1, none) []
+    [(⟨⟨5, 0⟩, true⟩, false), (⟨⟨7, 1⟩, true⟩, false), (⟨⟨6, 2⟩, true⟩, true), (⟨⟨9, 3⟩, true⟩, false),
+     (⟨⟨8, 6⟩, true⟩, true)] = true := by decide
 example : search gtNat (selSorted gtNat) 2 1 [[⟨5, 0⟩, ⟨7, 1⟩, ⟨5, 2⟩], [⟨9, 100⟩, ⟨7, 101⟩]]
     = [⟨7, 1⟩, ⟨7, 101⟩] := by decide
 example : (List.range 3).flatMap (fun i => topK (le gtNat) 3 (i * 3) exDocs) = isort (le gtNat) exDocs := by
